@@ -14,6 +14,9 @@
 // A table that fails either test makes the process exit(2) with ORACLE-SELFTEST-FAILED
 // (no verdict), never a VIOLATION.
 //
+// Tables are built lazily per class and cached per process; with Tables::cacheDir set, 4-man tables are also kept
+// on disk (build directory) and go through the same validation when loaded.
+//
 // Storage: one int8 per (white king in the a1-d4 quadrant, other men on 64 squares, side
 // to move): 16*64^(n-1)*2 entries (8.4 MB for four men).  Only the two mirror symmetries
 // are used (no square is fixed by them, so every class of placements has exactly one
@@ -28,6 +31,7 @@
 #include <memory>
 #include <string>
 #include <time.h>
+#include <unistd.h>
 #include <vector>
 
 namespace refdtm {
@@ -241,21 +245,46 @@ struct Table {
 
     void stats() {
         hist.clear(); samples.clear(); legal = wins = losses = draws = 0; maxWinPlies = maxLossPlies = 0;
-        for (size_t i = 0; i < v.size(); i++) { int8_t x = v[i]; if (x != ILLEGAL) hist[x]++; }
-        std::map<int, long> seen;
+        std::vector<long> h(256, 0), seen(256, 0);
+        for (size_t i = 0; i < v.size(); i++) h[(uint8_t)v[i]]++;
+        for (int b = 0; b < 256; b++) { int8_t x = (int8_t)b; if (x != ILLEGAL && h[(size_t)b]) hist[x] = h[(size_t)b]; }
         for (auto& kv : hist) {
             legal += kv.second;
             if (kv.first > 0) { wins += kv.second; maxWinPlies = std::max(maxWinPlies, kv.first); }
             else if (kv.first < 0) { losses += kv.second; maxLossPlies = std::max(maxLossPlies, -kv.first - 1); }
             else draws += kv.second;
+            samples[kv.first].reserve(256);
         }
         for (size_t i = 0; i < v.size(); i++) {
             int8_t x = v[i];
             if (x == ILLEGAL) continue;
-            long total = hist[x], stride = total / 256 + 1;
-            long k = seen[x]++;
-            if (k % stride == 0 && samples[x].size() < 256) samples[x].push_back((uint32_t)i);
+            long total = h[(uint8_t)x], stride = total / 256 + 1;
+            long k = seen[(uint8_t)x]++;
+            if (k % stride == 0) { std::vector<uint32_t>& sv = samples[x]; if (sv.size() < 256) sv.push_back((uint32_t)i); }
         }
+    }
+
+    // optional disk cache (a pure function of the class; every loaded table goes through the same validation as a fresh one)
+    static const uint32_t FILE_VERSION = 1;
+    bool load(const std::string& fn) {
+        FILE* f = fopen(fn.c_str(), "rb");
+        if (!f) return false;
+        uint32_t hdr[4] = {0, 0, 0, 0};
+        bool ok = fread(hdr, 4, 4, f) == 4 && hdr[0] == 0x4d544452u && hdr[1] == FILE_VERSION && hdr[2] == (uint32_t)n && hdr[3] == (uint32_t)size();
+        if (ok) { v.resize(size()); ok = fread(v.data(), 1, v.size(), f) == v.size(); }
+        fclose(f);
+        if (!ok) { v.clear(); return false; }
+        stats();
+        return true;
+    }
+    void save(const std::string& fn) const {
+        std::string tmp = fn + ".tmp" + std::to_string((long)getpid());
+        FILE* f = fopen(tmp.c_str(), "wb");
+        if (!f) return;
+        uint32_t hdr[4] = {0x4d544452u, FILE_VERSION, (uint32_t)n, (uint32_t)size()};
+        bool ok = fwrite(hdr, 4, 4, f) == 4 && fwrite(v.data(), 1, v.size(), f) == v.size();
+        ok = fclose(f) == 0 && ok;
+        if (ok) rename(tmp.c_str(), fn.c_str()); else remove(tmp.c_str());
     }
 
     ref::Pos toPos(const MP& p) const {
@@ -292,8 +321,9 @@ struct Value {
 
 struct Tables {
     std::map<std::string, std::unique_ptr<Table>> byKey;
-    long validatePerTable = 4000;
+    long validatePerTable = 10000;
     bool verbose = false;
+    std::string cacheDir; // empty = no disk cache
 
     static std::string order(const std::string& s) { // sort by QRBN
         std::string r;
@@ -323,7 +353,11 @@ struct Tables {
             if (j - 2 < (int)w.size()) w2.erase((size_t)(j - 2), 1); else b2.erase((size_t)(j - 2) - w.size(), 1);
             t->sub[j] = get("K" + w2 + "k" + b2);
         }
-        t->generate();
+        bool loaded = !cacheDir.empty() && t->n >= 4 && t->load(cacheDir + "/" + key + ".dtm");
+        if (!loaded) {
+            t->generate();
+            if (!cacheDir.empty() && t->n >= 4) t->save(cacheDir + "/" + key + ".dtm");
+        }
         Table* raw = t.get();
         byKey[key] = std::move(t);
         validate(*raw);
